@@ -22,7 +22,7 @@ def fr(f):
         return f"body@{f[1]}"
     return k + "(" + ",".join(tstr(x) if isinstance(x, tuple) and x and isinstance(x[0], str) else str(x) for x in f[1:]) + ")"
 
-KINDS = {"c","n","self","p","a","i","slice","call","op","b","obj","arg","ret","lc","lam","list","tuple","set","dict","star","ife","fstr","loopvar","unk","branchfn","loopitems"}
+KINDS = {"c","n","self","p","a","i","slice","call","op","b","obj","arg","ret","lc","lam","list","tuple","set","dict","star","ife","fstr","loopvar","unk","branchfn","loopitems","v"}
 def fmt(v):
     if isinstance(v, tuple):
         if v and isinstance(v[0], str) and v[0] in KINDS:
